@@ -389,6 +389,14 @@ def families(thorough):
         # headers ONLY: after a 303 the forwarded mapping is empty - which is not "no headers given"
         for start in ("had", "sad"):
             out.append(("F4", client, start, "POST", (NOT_GIVEN, NOT_GIVEN, NOT_GIVEN), (ALL_STATUS, f2_forms, 2, 0)))
+    # F5: the policy belongs to ONE pool of a manager (connection_from_url(..., pool_kwargs={"retries": policy})):
+    # every policy value, F1's chains
+    for method in ("GET", "POST"):
+        for p in policies(thorough):
+            pl = (NOT_GIVEN, p, NOT_GIVEN)
+            budget = effective({"client": "ManagerPool", "req_policy": pl[0], "ctor_policy": pl[1], "redirect_kw": pl[2]})[2]
+            key = (f1_status, ("l", "h"), min(budget, 3) + 1, 2) if budget <= 3 else ((302, 303), ("l", "h"), min(budget + 1, 6), 2)
+            out.append(("F5", "ManagerPool", "had", method, pl, key))
     return out
 
 
@@ -406,7 +414,7 @@ def make_case(fam, hops, mode):
     _, client, start, method, pl, _ = fam
     post = method == "POST"
     return {"client": client, "start": start, "hops": hops, "mode": mode, "method": method,
-            "break_first": 1 if fam[0] == "F3" else 0,
+            "break_first": 1 if fam[0] == "F3" else 0, "pool_kwargs": fam[0] == "F5",
             "body": BODY if post else None,
             "ctor_headers": [["Content-Type", "application/x-from-defaults"], ["Content-Language", "xx"], ["X-Default", "d"]] if fam[0] == "F4" else None,
             "headers": [list(h) for h in (CONTENT_HEADERS if fam[0] == "F4" else (CONTENT_HEADERS_MIXED if post else CONTENT_HEADERS_MIXED[:2]) + [KEEP])],
